@@ -39,7 +39,7 @@ func registerProps() {
 			t2Part("C01T2", 400, 12000, "tier T2 confirmation: the generator of C03's T2 part; runs in which both engines return nil are judged: digest of the output directory (paths, types, sizes, SHA-256) = digest of the generated source tree")},
 		ID: "C01", Pkg: "internal/transfer", Level: "exploration",
 		Quick: 6000, Thorough: 300000, QuickWall: 5 * time.Minute, ThorWall: 40 * time.Minute,
-		Rule: "same generator as C03 (fault-free, all configurations and schedules); only runs in which both engines returned nil are judged (the others are counted as outside the property's scope); oracle: digest of the output directory = digest of the generated source tree, nothing else present except the resume-metadata directory",
+		Rule: "same generator as C03 (fault-free, all configurations and schedules; a fifth of the runs resume from a healthy prior state written directly, a sixth receive into a directory that already holds older copies of some files with other content and other lengths and no metadata); only runs in which both engines returned nil are judged (the others are counted as outside the property's scope); oracle: digest of the output directory = digest of the generated source tree, nothing else present except the resume-metadata directory",
 		Real: txReal, Stub: txStub, Assume: txAssume,
 	})
 	reg(&propDef{
@@ -85,7 +85,7 @@ func registerProps() {
 	reg(&propDef{
 		ID: "C15", Pkg: "internal/transfer", Level: "exploration", MemLimitKB: 3 * 1024 * 1024,
 		Quick: 4000, Thorough: 150000, QuickWall: 5 * time.Minute, ThorWall: 30 * time.Minute,
-		Rule:   "each run = a healthy small transfer is recorded in the simulator (all streams, both directions), 1-2 seeded mutations are applied to the transcript (truncation at a drawn byte, byte set to 0/255/+-1, 16/32-bit fields overwritten with 0 or all-ones, duplicated/dropped/inserted ranges, record type bytes replaced at record boundaries, wrong magic, absurd values in manifest-length / frame index / frame length fields, chunk size 0, well-formed but inconsistent FileResumeInfo records, well-formed chunk frames with a valid checksum that do not fit the announced file: data for an empty file, last chunk at full chunk size, short chunk, index beyond the file, the same chunk twice) and the result is replayed by a scripted peer against the real receiver (2/3) or the real sender (1/3) with seeded segmentation; the script FINs every stream and optionally closes the connection; non-trivial = a mutation applied and more than 10 scheduling steps, distinct by decision-log hash",
+		Rule:   "each run = a healthy small transfer is recorded in the simulator (all streams, both directions), 1-2 seeded mutations are applied to the transcript (truncation at a drawn byte, byte set to 0/255/+-1, 16/32-bit fields overwritten with 0 or all-ones, duplicated/dropped/inserted ranges, record type bytes replaced at record boundaries, wrong magic, absurd values in manifest-length / frame index / frame length fields, chunk size 0, well-formed but inconsistent FileResumeInfo records, well-formed chunk frames with a valid checksum that do not fit the announced file: data for an empty file, last chunk at full chunk size, short chunk, index beyond the file, the same chunk twice, a well-formed manifest with an absurd number, well-formed credit / resume / file-done records inserted with drawn counts, and a cross-stream rewrite in which one manifest file is announced, sent and ended twice and another never) and the result is replayed by a scripted peer against the real receiver (2/3) or the real sender (1/3) with seeded segmentation; the script FINs every stream and optionally closes the connection; non-trivial = a mutation applied and more than 10 scheduling steps, distinct by decision-log hash",
 		Real:   []string{"internal/transfer decoders, RecvManifestMultiStream, SendManifestMultiStream (instrumented copy of the current working tree)"},
 		Stub:   []string{"peer: byte script derived from a recorded healthy run", "QUIC: SimNet"},
 		Assume: []string{"memory is judged by the Go runtime's TotalAlloc delta of the worker process over the run (limit 64 x bytes received + 48 MiB); a worker process runs one simulation at a time", "mutations are ordinary seeded mutation; the simulator contributes end-of-input semantics, segmentation and hang detection on the fake clock"},
@@ -119,19 +119,19 @@ func registerProps() {
 	reg(&propDef{
 		ID: "C16", Pkg: "cmd/thruserv", Level: "exploration",
 		Quick: 2500, Thorough: 100000, QuickWall: 5 * time.Minute, ThorWall: 30 * time.Minute,
-		Rule: "each run = one server configuration drawn from the grid {12 limit/timeout flags x (default, small, 0)} x TURN off / 1-2 TURN URLs in 8 spellings with a secret and optional credential TTL, peer ids with URL-significant characters, client max_receivers 0/1/4; the real clienthttp.CreateSession, buildWebSocketURL and wsclient.Dial run for a host and a receiver against the real server; the credentials the server pushes are parsed with the client's parseTurnServer and compared with what the configured secret and URL mean (user, secret, host:port, transport, TLS, server name); after connecting, receiver and host exchange one addressed message each way and no connection may be ended by the server while its client is there; no faults; distinct by decision-log hash",
+		Rule: "each run = one server configuration drawn from the grid {12 limit/timeout flags x (default, small, 0)} x TURN off / 1-2 TURN URLs in 8 spellings with a secret and optional credential TTL, peer ids with URL-significant characters, client max_receivers 0/1/4; the real clienthttp.CreateSession, buildWebSocketURL and wsclient.Dial run for a host and a receiver against the real server; the credentials the server pushes are parsed with the client's parseTurnServer and compared with what the configured secret and URL mean (user, secret, host:port, transport, TLS, server name, and the expiry in the user name = simulated now + configured TURN lifetime, whatever the session timeout); after connecting, receiver and host exchange one addressed message each way and no connection may be ended by the server while its client is there; no faults; distinct by decision-log hash",
 		Real: append([]string{"internal/clienthttp.CreateSession, internal/app.buildWebSocketURL, internal/wsclient.Dial/ReadLoop, internal/ice.parseTurnServer (through overlay shims)"}, t3Real...), Stub: t3Stub, Assume: t3Assume,
 	})
 	reg(&propDef{
 		ID: "C14", Pkg: "cmd/thruserv", Level: "exploration",
 		Quick: 3000, Thorough: 120000, QuickWall: 5 * time.Minute, ThorWall: 30 * time.Minute,
-		Rule: "each run = one scenario against the real server started with the flags under test: join-code lifetime (connect at creation, 1 ms before and 1 ms / 2 s after expiry for lifetimes 1 s ... 24 h on the fake clock; connect while the host is connected, 30 s in, and 1 s after it disconnected), uniqueness among 20-50 live sessions with a join-code random source reduced to 256 codes, concurrent bursts of session creations / receivers of one host / WebSocket connections against limits 1-3 and against 0 (disabled: all must pass), message sizes around --max-message-bytes, message bursts against --ws-msgs-per-sec/--ws-msgs-burst; seeded schedule over the server's generated yield points and the SimTCP events; distinct by decision-log hash",
+		Rule: "each run = one scenario against the real server started with the flags under test: join-code lifetime (connect at creation, 1 ms before and 1 ms / 2 s after expiry for lifetimes 1 s ... 24 h on the fake clock; connect while the host is connected, 30 s in, and 1 s after it disconnected), uniqueness among 20-50 live sessions with a join-code random source reduced to 256 codes, concurrent bursts of session creations / receivers of one host / WebSocket connections against limits 1-3 and against 0 (disabled: all must pass), message sizes around --max-message-bytes, message bursts against --ws-msgs-per-sec/--ws-msgs-burst, --max-message-bytes 0 with messages above 64 KiB, receivers reconnecting under their id at the receiver limit, and the per-address rates --session-creates-per-min / --ws-connects-per-min across an idle gap of 30-150 s (admitted <= burst + rate x elapsed, at least one admitted); seeded schedule over the server's generated yield points and the SimTCP events; distinct by decision-log hash",
 		Real: t3Real, Stub: append([]string{"clients: harness goroutines using net/http and raw gorilla connections"}, t3Stub...), Assume: t3Assume,
 	})
 	reg(&propDef{
 		ID: "C10", Pkg: "cmd/thruserv", Level: "exploration",
 		Quick: 2500, Thorough: 100000, QuickWall: 5 * time.Minute, ThorWall: 30 * time.Minute,
-		Rule:   "each run = 1-3 sessions with a host and 0-3 receivers each (some reconnecting with a duplicate peer id), every client a scripted raw WebSocket connection that sends addressed, broadcast, spoofed-from, foreign-session-id, malformed and id-less messages (each valid one with a unique token), sleeps, stalls its inbound path, closes or resets; at most ~100 messages per recipient; all against the real server main over SimTCP under a seeded schedule; non-trivial = more than 50 scheduling steps, distinct by decision-log hash",
+		Rule:   "each run = 1-3 sessions with a host and 0-3 receivers each (some reconnecting with a duplicate peer id), every client a scripted raw WebSocket connection that sends addressed, broadcast, spoofed-from, foreign-session-id, malformed and id-less messages (each valid one with a unique token), sleeps, stalls its inbound path, closes or resets; at most ~100 messages per recipient, except in flood runs (one in thirteen): the server's simulated sockets have a 16 KiB send buffer, one client stalls another's path from the server, sends it 380-580 addressed messages, heals the path and sends five more, so that the recipient's writer blocks and its 256-slot queue in the hub overflows (there nothing is must-deliver; isolation, from, duplicates and order are judged as everywhere); every client act is a scheduling point; all against the real server main over SimTCP under a seeded schedule; non-trivial = more than 50 scheduling steps, distinct by decision-log hash",
 		Real: t3Real, Stub: append([]string{"clients: scripted raw gorilla connections (wsclient runs in C16)"}, t3Stub...), Assume: append([]string{"must-deliver is asserted only for a recipient that had received its peer_list before the message was sent, kept its connection to the end, has a peer id unique in its session, and whose author also stayed connected; everything else is 'may'"}, t3Assume...),
 	})
 	reg(&propDef{
